@@ -12,8 +12,8 @@ import (
 	"errors"
 	"fmt"
 	"hash/crc32"
-	"log"
 	"io/ioutil"
+	"log"
 	"strings"
 	"testing"
 
